@@ -10,8 +10,8 @@
 From Coq Require Import List NArith Bool.
 From V.C10 Require Import Model.
 From V.Mgr Require Import DialShape DialShapeProofs Model Caps Ledger LedgerInv.
-From V.Tcp Require Model Proofs Theorems.
-From V.C05 Require TcpCompose.
+From V.Tcp Require Model Proofs Theorems Variants VariantTheorems Once Settle.
+From V.C05 Require TcpCompose TrCompose.
 Import ListNotations.
 Open Scope N_scope.
 
@@ -736,3 +736,523 @@ Example C05_sys_history :
   quiescent (TcpCompose.s_m (TcpCompose.sys_run TcpCompose.L_tcp TcpCompose.sys0 TcpCompose.history2))
             (TcpCompose.s_g (TcpCompose.sys_run TcpCompose.L_tcp TcpCompose.sys0 TcpCompose.history2)).
 Proof. exact TcpCompose.history2_ok. Qed.
+
+(* ---- the same contract for each socket transport: TCP, WebSocket, QUIC (coq/Tcp/Variants.v,
+   VariantTheorems.v, Once.v, Settle.v) ----
+   tcp/mod.rs, websocket/mod.rs and quic/mod.rs keep the same books with the same poll_next; what differs
+   is the front end (which multiaddresses `dial` accepts, which addresses of an `open` become attempts,
+   the peer an attempt expects, whether `open` has an overall deadline). `tstep t` is the bookkeeping
+   model behind the front end of transport t; `treach t` its histories. *)
+
+(* refinement: every history of a transport (trait calls carrying real multiaddresses, judged by that transport's own parser; its own environment events) is a history of the bookkeeping model, so every C05_tcp_* theorem holds for it *)
+Theorem C05_tr_refines_model :
+  forall t s g,
+  Tcp.VariantTheorems.treach t s g -> Tcp.Theorems.reach s g.
+Proof. exact Tcp.VariantTheorems.treach_reach. Qed.
+Print Assumptions C05_tr_refines_model.
+
+(* ... whatever ids the owner uses *)
+Theorem C05_tr_refines_model_any_owner :
+  forall t s g,
+  Tcp.VariantTheorems.treachU t s g -> Tcp.Theorems.reachU s g.
+Proof. exact Tcp.VariantTheorems.treachU_reachU. Qed.
+Print Assumptions C05_tr_refines_model_any_owner.
+
+(* front end: dial(c, a) returns Ok exactly when the address parses for the transport (TCP: TcpAddress::multiaddr_to_socket_address; WebSocket: multiaddr_into_url, /p2p required; QUIC: get_socket_address and /p2p required) *)
+Theorem C05_tr_dial_result :
+  forall t s g c a,
+  Tcp.VariantTheorems.treachU t s g ->
+  snd (Tcp.Variants.tstep t s (Tcp.Variants.XDial c a)) = [Tcp.Model.ORet (match Tcp.Variants.expect_of t a with Some _ => true | None => false end)].
+Proof. exact Tcp.VariantTheorems.t_dial_result. Qed.
+Print Assumptions C05_tr_dial_result.
+
+(* front end: open never fails, whatever the addresses (an address that does not parse is an attempt that ends at once) *)
+Theorem C05_tr_open_result :
+  forall t s c l,
+  snd (Tcp.Variants.tstep t s (Tcp.Variants.XOpen c l)) = [Tcp.Model.ORet true].
+Proof. exact Tcp.VariantTheorems.t_open_result. Qed.
+Print Assumptions C05_tr_open_result.
+
+(* WebSocket: an address multiaddr_into_url accepts is also accepted by the socket-address parser that dial_peer runs next *)
+Theorem C05_ws_url_parse :
+  forall a p,
+  Tcp.Variants.ws_url a = Some p -> exists ho port, C10.Model.parse V.C10.Model.TWs a = Some (ho, port, Some p).
+Proof. exact Tcp.VariantTheorems.ws_url_parse. Qed.
+Print Assumptions C05_ws_url_parse.
+
+(* every address shape TransportManager::dial_address lets through to TCP is accepted by its dial, expecting the dialled peer *)
+Theorem C05_tcp_accepts_manager_shape :
+  forall a q,
+  Tcp.Variants.manager_tcp_shape a q -> Tcp.Variants.expect_of V.C10.Model.TTcp a = Some (Some q).
+Proof. exact Tcp.VariantTheorems.t_accepts_manager_tcp. Qed.
+Print Assumptions C05_tcp_accepts_manager_shape.
+
+(* ... to WebSocket *)
+Theorem C05_ws_accepts_manager_shape :
+  forall a q,
+  Tcp.Variants.manager_ws_shape a q -> Tcp.Variants.expect_of V.C10.Model.TWs a = Some (Some q).
+Proof. exact Tcp.VariantTheorems.t_accepts_manager_ws. Qed.
+Print Assumptions C05_ws_accepts_manager_shape.
+
+(* ... to QUIC *)
+Theorem C05_quic_accepts_manager_shape :
+  forall a q,
+  Tcp.Variants.manager_quic_shape a q -> Tcp.Variants.expect_of V.C10.Model.TQuic a = Some (Some q).
+Proof. exact Tcp.VariantTheorems.t_accepts_manager_quic. Qed.
+Print Assumptions C05_quic_accepts_manager_shape.
+
+(* dial by peer id: every address the address store keeps (`supported`) is accepted by the transport it is routed to (`route`), expecting the peer its /p2p names *)
+Theorem C05_tr_accepts_supported :
+  forall cfg a,
+  C10.Model.supported cfg a = true ->
+  exists q, last a (C10.Model.Other 0) = C10.Model.P2p q /\ Tcp.Variants.expect_of (C10.Model.route cfg a) a = Some (Some q).
+Proof. exact Tcp.VariantTheorems.t_accepts_supported. Qed.
+Print Assumptions C05_tr_accepts_supported.
+
+(* dial_address: what the manager model routes to TCP (coq/Mgr/DialShape.v) is accepted by TcpTransport::dial, and the peer the negotiation insists on is the one the manager recorded *)
+Theorem C05_tcp_dial_accepts_manager_addresses :
+  forall listen a q,
+  DialShape.dial_shape listen a = DialShape.SvTcp q -> Tcp.Variants.expect_of V.C10.Model.TTcp a = Some (Some q).
+Proof. exact Tcp.VariantTheorems.tcp_dial_accepts_manager_addresses. Qed.
+Print Assumptions C05_tcp_dial_accepts_manager_addresses.
+
+(* ... to WebSocket *)
+Theorem C05_ws_dial_accepts_manager_addresses :
+  forall listen a q,
+  DialShape.dial_shape listen a = DialShape.SvWs q -> Tcp.Variants.expect_of V.C10.Model.TWs a = Some (Some q).
+Proof. exact Tcp.VariantTheorems.ws_dial_accepts_manager_addresses. Qed.
+Print Assumptions C05_ws_dial_accepts_manager_addresses.
+
+(* (a) per transport: ConnectionOpened / OpenFailure only for an owed open, whatever ids the owner uses *)
+Theorem C05_tr_open_phase_owed :
+  forall t s g k o1 e o2,
+  Tcp.VariantTheorems.treachU t s g -> snd (Tcp.Variants.tstep t s k) = o1 ++ Tcp.Model.OEv e :: o2 ->
+  match e with
+  | Tcp.Model.TOpened c | Tcp.Model.TOpenFailure c =>
+      In c (Tcp.Model.g_open (fold_left Tcp.Model.gout o1 (Tcp.Model.gcall (Tcp.Variants.ev_of t k) (snd (Tcp.Variants.tstep t s k)) g)))
+  | _ => True
+  end.
+Proof. exact Tcp.VariantTheorems.t_open_phase_owed. Qed.
+Print Assumptions C05_tr_open_phase_owed.
+
+(* (c) per transport: results of the calls *)
+Theorem C05_tr_call_results :
+  forall t s g k,
+  Tcp.VariantTheorems.treachU t s g -> Tcp.Model.call_ok (Tcp.Variants.ev_of t k) g (snd (Tcp.Variants.tstep t s k)) = true.
+Proof. exact Tcp.VariantTheorems.t_call_results. Qed.
+Print Assumptions C05_tr_call_results.
+
+(* (c) per transport: negotiate(c) succeeds after ConnectionOpened c, with or without cancel(c) in between *)
+Theorem C05_tr_negotiate_after_opened :
+  forall t s g k c,
+  Tcp.VariantTheorems.treachU t s g -> In (Tcp.Model.OEv (Tcp.Model.TOpened c)) (snd (Tcp.Variants.tstep t s k)) ->
+  let s1 := fst (Tcp.Variants.tstep t s k) in
+  snd (Tcp.Variants.tstep t s1 (Tcp.Variants.XEv (Tcp.Model.ENegotiate c))) = [Tcp.Model.ORet true] /\
+  snd (Tcp.Variants.tstep t (fst (Tcp.Variants.tstep t s1 (Tcp.Variants.XEv (Tcp.Model.ECancel c)))) (Tcp.Variants.XEv (Tcp.Model.ENegotiate c))) = [Tcp.Model.ORet true].
+Proof. exact Tcp.VariantTheorems.t_negotiate_after_opened. Qed.
+Print Assumptions C05_tr_negotiate_after_opened.
+
+(* (b) (e) per transport: the whole transport contract, for an owner that draws its ids *)
+Theorem C05_tr_contract :
+  forall t s g k o1 e o2,
+  Tcp.VariantTheorems.treach t s g -> Tcp.Model.caller_ok g (Tcp.Variants.ev_of t k) = true -> snd (Tcp.Variants.tstep t s k) = o1 ++ Tcp.Model.OEv e :: o2 ->
+  Tcp.Model.tfeas (fold_left Tcp.Model.gout o1 (Tcp.Model.gcall (Tcp.Variants.ev_of t k) (snd (Tcp.Variants.tstep t s k)) g)) e = true.
+Proof. exact Tcp.VariantTheorems.t_contract. Qed.
+Print Assumptions C05_tr_contract.
+
+(* identity, per transport *)
+Theorem C05_tr_established_names_dialled_peer :
+  forall t s g k o1 c q o2,
+  Tcp.VariantTheorems.treach t s g -> Tcp.Model.caller_ok g (Tcp.Variants.ev_of t k) = true ->
+  snd (Tcp.Variants.tstep t s k) = o1 ++ Tcp.Model.OEv (Tcp.Model.TEstablished c q false) :: o2 ->
+  let g' := fold_left Tcp.Model.gout o1 (Tcp.Model.gcall (Tcp.Variants.ev_of t k) (snd (Tcp.Variants.tstep t s k)) g) in
+  In c (Tcp.Model.g_neg g') /\
+  exists es, Tcp.Model.lookup c (Tcp.Model.g_att g') = Some es /\ (exists x, In x es /\ Tcp.Model.matches x q = true) /\
+             forall p, (forall x, In x es -> x = Some p) -> q = p.
+Proof. exact Tcp.VariantTheorems.t_established_names_dialled_peer. Qed.
+Print Assumptions C05_tr_established_names_dialled_peer.
+
+(* WebSocket and QUIC always expect a definite peer: an outbound ConnectionEstablished reports a peer that an address of that id names literally *)
+Theorem C05_tr_strict_established_is_named_peer :
+  forall t s g k o1 c q o2,
+  Tcp.VariantTheorems.strict t = true ->
+  Tcp.VariantTheorems.treach t s g -> Tcp.Variants.call_plain t k = true -> Tcp.Model.caller_ok g (Tcp.Variants.ev_of t k) = true ->
+  snd (Tcp.Variants.tstep t s k) = o1 ++ Tcp.Model.OEv (Tcp.Model.TEstablished c q false) :: o2 ->
+  exists es, Tcp.Model.lookup c (Tcp.Model.g_att (Tcp.Model.gstep (Tcp.Variants.ev_of t k) (snd (Tcp.Variants.tstep t s k)) g)) = Some es /\ In (Some q) es.
+Proof. exact Tcp.VariantTheorems.strict_established_is_named_peer. Qed.
+Print Assumptions C05_tr_strict_established_is_named_peer.
+
+(* (d) per transport: the silent branches of poll_next are unreachable *)
+Theorem C05_tr_no_dropped_answer :
+  forall t s g k m,
+  Tcp.VariantTheorems.treach t s g -> Tcp.Model.caller_ok g (Tcp.Variants.ev_of t k) = true -> In (Tcp.Model.OMark m) (snd (Tcp.Variants.tstep t s k)) ->
+  exists c, m = Tcp.Model.MSilentFailure c Tcp.Model.KInb.
+Proof. exact Tcp.VariantTheorems.t_no_dropped_answer. Qed.
+Print Assumptions C05_tr_no_dropped_answer.
+
+(* (d) per transport: what is owed is backed by a pending, un-cancelled future *)
+Theorem C05_tr_owed_is_pending :
+  forall t s g c,
+  Tcp.VariantTheorems.treach t s g ->
+  (In c (Tcp.Model.g_open g) -> exists f rem, Tcp.Model.lookup f (Tcp.Model.praw s) = Some c /\ Tcp.Model.lookup f (Tcp.Model.attempts s) = Some rem /\
+                                    ~ In f (Tcp.Model.aborted s)) /\
+  (In c (Tcp.Model.g_neg g) -> exists f k, Tcp.Model.lookup f (Tcp.Model.pconn s) = Some (c, k) /\ Tcp.Model.is_inb k = false).
+Proof. exact Tcp.VariantTheorems.t_owed_is_pending. Qed.
+Print Assumptions C05_tr_owed_is_pending.
+
+(* progress, per transport *)
+Theorem C05_tr_progress_open_answer :
+  forall t s g f c rem i e q,
+  Tcp.VariantTheorems.treach t s g -> Tcp.Model.lookup f (Tcp.Model.praw s) = Some c -> In c (Tcp.Model.g_open g) ->
+  Tcp.Model.lookup f (Tcp.Model.attempts s) = Some rem -> Tcp.Model.lookup i rem = Some e -> Tcp.Model.matches e q = true ->
+  In (Tcp.Model.OEv (Tcp.Model.TOpened c)) (snd (Tcp.Variants.tstep t s (Tcp.Variants.XEv (Tcp.Model.EAns f i (Some q))))).
+Proof. exact Tcp.VariantTheorems.t_progress_open_answer. Qed.
+Print Assumptions C05_tr_progress_open_answer.
+
+(* progress, per transport *)
+Theorem C05_tr_progress_open_last_failure :
+  forall t s g f c rem i e ans,
+  Tcp.VariantTheorems.treach t s g -> Tcp.Model.lookup f (Tcp.Model.praw s) = Some c -> In c (Tcp.Model.g_open g) ->
+  Tcp.Model.lookup f (Tcp.Model.attempts s) = Some rem -> Tcp.Model.lookup i rem = Some e -> Tcp.Model.delk i rem = [] ->
+  (forall q, ans = Some q -> Tcp.Model.matches e q = false) ->
+  In (Tcp.Model.OEv (Tcp.Model.TOpenFailure c)) (snd (Tcp.Variants.tstep t s (Tcp.Variants.XEv (Tcp.Model.EAns f i ans)))).
+Proof. exact Tcp.VariantTheorems.t_progress_open_last_failure. Qed.
+Print Assumptions C05_tr_progress_open_last_failure.
+
+(* progress: the overall deadline of an open (TCP and WebSocket; QUIC has none: its histories contain no EExpire) *)
+Theorem C05_tr_progress_open_expire :
+  forall t s g f c rem,
+  Tcp.Variants.has_deadline t = true ->
+  Tcp.VariantTheorems.treach t s g -> Tcp.Model.lookup f (Tcp.Model.praw s) = Some c -> In c (Tcp.Model.g_open g) ->
+  Tcp.Model.lookup f (Tcp.Model.attempts s) = Some rem -> rem <> [] ->
+  In (Tcp.Model.OEv (Tcp.Model.TOpenFailure c)) (snd (Tcp.Variants.tstep t s (Tcp.Variants.XEv (Tcp.Model.EExpire f)))).
+Proof. exact Tcp.VariantTheorems.t_progress_open_expire. Qed.
+Print Assumptions C05_tr_progress_open_expire.
+
+(* progress: no address left, also an open none of whose addresses parses for this transport *)
+Theorem C05_tr_progress_open_no_address :
+  forall t s g f c e,
+  Tcp.VariantTheorems.treach t s g -> Tcp.Model.lookup f (Tcp.Model.praw s) = Some c -> In c (Tcp.Model.g_open g) -> Tcp.Model.lookup f (Tcp.Model.attempts s) = Some [] ->
+  Tcp.Model.polls e = true -> In (Tcp.Model.OEv (Tcp.Model.TOpenFailure c)) (snd (Tcp.Variants.tstep t s (Tcp.Variants.XEv e))).
+Proof. exact Tcp.VariantTheorems.t_progress_open_no_address. Qed.
+Print Assumptions C05_tr_progress_open_no_address.
+
+(* progress, per transport *)
+Theorem C05_tr_progress_dial :
+  forall t s g f c i ans,
+  Tcp.VariantTheorems.treach t s g -> Tcp.Model.lookup f (Tcp.Model.pconn s) = Some (c, Tcp.Model.KDial) ->
+  exists x, Tcp.Model.lookup c (Tcp.Model.g_att g) = Some [x] /\
+    In (Tcp.Model.OEv (match ans with
+             | Some q => if Tcp.Model.matches x q then Tcp.Model.TEstablished c q false else Tcp.Model.TDialFailure c
+             | None => Tcp.Model.TDialFailure c
+             end)) (snd (Tcp.Variants.tstep t s (Tcp.Variants.XEv (Tcp.Model.EAns f i ans)))).
+Proof. exact Tcp.VariantTheorems.t_progress_dial. Qed.
+Print Assumptions C05_tr_progress_dial.
+
+(* progress, per transport *)
+Theorem C05_tr_progress_negotiate :
+  forall t s g f c e,
+  Tcp.VariantTheorems.treach t s g -> Tcp.Model.lookup f (Tcp.Model.pconn s) = Some (c, Tcp.Model.KNeg) -> Tcp.Model.polls e = true ->
+  exists q, In (Tcp.Model.OEv (Tcp.Model.TEstablished c q false)) (snd (Tcp.Variants.tstep t s (Tcp.Variants.XEv e))).
+Proof. exact Tcp.VariantTheorems.t_progress_negotiate. Qed.
+Print Assumptions C05_tr_progress_negotiate.
+
+(* progress, per transport *)
+Theorem C05_tr_progress_inbound :
+  forall t s g f c i q,
+  Tcp.VariantTheorems.treach t s g -> Tcp.Model.lookup f (Tcp.Model.pconn s) = Some (c, Tcp.Model.KInb) ->
+  In (Tcp.Model.OEv (Tcp.Model.TEstablished c q true)) (snd (Tcp.Variants.tstep t s (Tcp.Variants.XEv (Tcp.Model.EAns f i (Some q))))).
+Proof. exact Tcp.VariantTheorems.t_progress_inbound. Qed.
+Print Assumptions C05_tr_progress_inbound.
+
+(* (e) per transport *)
+Theorem C05_tr_outbound_ids_from_owner :
+  forall t s g c,
+  Tcp.VariantTheorems.treachU t s g -> In c (Tcp.Model.g_open g) \/ In c (Tcp.Model.g_neg g) \/ In c (Tcp.Model.g_opened g) -> In c (Tcp.Model.g_used g).
+Proof. exact Tcp.VariantTheorems.t_outbound_ids_from_owner. Qed.
+Print Assumptions C05_tr_outbound_ids_from_owner.
+
+(* `opened` / `opened_raw` holds exactly the connections announced by ConnectionOpened and not negotiated since *)
+Theorem C05_tr_opened_is_unnegotiated :
+  forall t s g c,
+  Tcp.VariantTheorems.treachU t s g -> (In c (Tcp.Model.opened s) <-> In c (Tcp.Model.g_opened g)).
+Proof. exact Tcp.VariantTheorems.t_opened_is_unnegotiated. Qed.
+Print Assumptions C05_tr_opened_is_unnegotiated.
+
+(* ... and the only call that removes an id from it is negotiate of that id (an owner that never negotiates keeps the socket in the map for good) *)
+Theorem C05_tr_opened_leaves_by_negotiate :
+  forall e os g c,
+  In c (Tcp.Model.g_opened g) -> ~ In c (Tcp.Model.g_opened (Tcp.Model.gstep e os g)) -> e = Tcp.Model.ENegotiate c.
+Proof. exact Tcp.VariantTheorems.opened_leaves_by_negotiate. Qed.
+Print Assumptions C05_tr_opened_leaves_by_negotiate.
+
+(* exactly one outcome, bookkeeping model: over a whole history an id is answered by at most one of ConnectionOpened / OpenFailure and by at most one of outbound ConnectionEstablished / DialFailure *)
+Theorem C05_tcp_answers_at_most_once :
+  forall s g h c,
+  Tcp.Once.reachH s g h -> (Tcp.Once.cnt (Tcp.Once.open_ans c) h <= 1)%nat /\ (Tcp.Once.cnt (Tcp.Once.neg_ans c) h <= 1)%nat.
+Proof. exact Tcp.Once.tcp_answers_at_most_once. Qed.
+Print Assumptions C05_tcp_answers_at_most_once.
+
+(* ... what is still owed has not been answered, and an id is in one phase at a time *)
+Theorem C05_tcp_owed_not_answered :
+  forall s g h c,
+  Tcp.Once.reachH s g h ->
+  (In c (Tcp.Model.g_open g) -> Tcp.Once.cnt (Tcp.Once.open_ans c) h = 0%nat /\ Tcp.Once.cnt (Tcp.Once.neg_ans c) h = 0%nat /\ ~ In c (Tcp.Model.g_neg g) /\ ~ In c (Tcp.Model.g_opened g)) /\
+  (In c (Tcp.Model.g_neg g) -> Tcp.Once.cnt (Tcp.Once.neg_ans c) h = 0%nat /\ ~ In c (Tcp.Model.g_open g) /\ ~ In c (Tcp.Model.g_opened g)).
+Proof. exact Tcp.Once.tcp_owed_not_answered. Qed.
+Print Assumptions C05_tcp_owed_not_answered.
+
+(* ... nothing is ever answered for an id the owner did not pass to dial / open *)
+Theorem C05_tcp_no_answer_without_call :
+  forall s g h c,
+  Tcp.Once.reachH s g h -> ~ In c (Tcp.Model.g_used g) -> Tcp.Once.cnt (Tcp.Once.open_ans c) h = 0%nat /\ Tcp.Once.cnt (Tcp.Once.neg_ans c) h = 0%nat.
+Proof. exact Tcp.Once.tcp_no_answer_without_call. Qed.
+Print Assumptions C05_tcp_no_answer_without_call.
+
+(* exactly one outcome, per transport *)
+Theorem C05_tr_answers_at_most_once :
+  forall t s g h c,
+  Tcp.Once.treachH t s g h -> (Tcp.Once.cnt (Tcp.Once.open_ans c) h <= 1)%nat /\ (Tcp.Once.cnt (Tcp.Once.neg_ans c) h <= 1)%nat.
+Proof. exact Tcp.Once.t_answers_at_most_once. Qed.
+Print Assumptions C05_tr_answers_at_most_once.
+
+(* ... per transport *)
+Theorem C05_tr_owed_not_answered :
+  forall t s g h c,
+  Tcp.Once.treachH t s g h ->
+  (In c (Tcp.Model.g_open g) -> Tcp.Once.cnt (Tcp.Once.open_ans c) h = 0%nat /\ Tcp.Once.cnt (Tcp.Once.neg_ans c) h = 0%nat /\ ~ In c (Tcp.Model.g_neg g) /\ ~ In c (Tcp.Model.g_opened g)) /\
+  (In c (Tcp.Model.g_neg g) -> Tcp.Once.cnt (Tcp.Once.neg_ans c) h = 0%nat /\ ~ In c (Tcp.Model.g_open g) /\ ~ In c (Tcp.Model.g_opened g)).
+Proof. exact Tcp.Once.t_owed_not_answered. Qed.
+Print Assumptions C05_tr_owed_not_answered.
+
+(* ... per transport *)
+Theorem C05_tr_no_answer_without_call :
+  forall t s g h c,
+  Tcp.Once.treachH t s g h -> ~ In c (Tcp.Model.g_used g) -> Tcp.Once.cnt (Tcp.Once.open_ans c) h = 0%nat /\ Tcp.Once.cnt (Tcp.Once.neg_ans c) h = 0%nat.
+Proof. exact Tcp.Once.t_no_answer_without_call. Qed.
+Print Assumptions C05_tr_no_answer_without_call.
+
+(* malformed / foreign addresses: a dial the transport refuses (Err) changes nothing: no future, no pending_dials entry, nothing owed *)
+Theorem C05_tr_refused_dial_no_effect :
+  forall t s g c a,
+  Tcp.Variants.expect_of t a = None ->
+  Tcp.Variants.tstep t s (Tcp.Variants.XDial c a) = (s, [Tcp.Model.ORet false]) /\
+  Tcp.Model.gstep (Tcp.Variants.ev_of t (Tcp.Variants.XDial c a)) (snd (Tcp.Variants.tstep t s (Tcp.Variants.XDial c a))) g = g.
+Proof. exact Tcp.VariantTheorems.t_refused_dial_no_effect. Qed.
+Print Assumptions C05_tr_refused_dial_no_effect.
+
+(* ... and an open none of whose addresses the transport takes is answered by OpenFailure at the very next poll: nothing is stuck *)
+Theorem C05_tr_open_unparsable_fails :
+  forall t s g c l e,
+  Tcp.VariantTheorems.treach t s g -> Tcp.Model.caller_ok g (Tcp.Variants.ev_of t (Tcp.Variants.XOpen c l)) = true -> Tcp.Variants.attempts_of t l = [] -> Tcp.Model.polls e = true ->
+  In (Tcp.Model.OEv (Tcp.Model.TOpenFailure c)) (snd (Tcp.Variants.tstep t (fst (Tcp.Variants.tstep t s (Tcp.Variants.XOpen c l))) (Tcp.Variants.XEv e))).
+Proof. exact Tcp.VariantTheorems.t_open_unparsable_fails. Qed.
+Print Assumptions C05_tr_open_unparsable_fails.
+
+(* never silence, bookkeeping model: from every reachable state the environment has a finite schedule (attempts ending, polls) after which nothing is owed any more: no state in which an answer is owed but nothing can complete *)
+Theorem C05_tcp_can_always_settle :
+  forall s g,
+  Tcp.Theorems.reach s g ->
+  exists es, forallb Tcp.Settle.env_ev es = true /\
+             Tcp.Theorems.reach (fst (Tcp.Settle.runG s g es)) (snd (Tcp.Settle.runG s g es)) /\
+             Tcp.Model.g_open (snd (Tcp.Settle.runG s g es)) = [] /\ Tcp.Model.g_neg (snd (Tcp.Settle.runG s g es)) = [].
+Proof. exact Tcp.Settle.tcp_can_always_settle. Qed.
+Print Assumptions C05_tcp_can_always_settle.
+
+(* ... and an environment event takes an id out of the owed sets only by emitting its answer: so on that schedule every owed open / negotiate gets its answer (exactly one, with C05_tcp_answers_at_most_once) *)
+Theorem C05_tcp_env_removes_only_by_answer :
+  forall s g e c,
+  Tcp.Settle.env_ev e = true ->
+  (In c (Tcp.Model.g_open g) -> ~ In c (Tcp.Model.g_open (Tcp.Model.gstep e (snd (Tcp.Model.step s e)) g)) ->
+   exists o, In o (snd (Tcp.Model.step s e)) /\ Tcp.Settle.answers_open c o) /\
+  (In c (Tcp.Model.g_neg g) -> ~ In c (Tcp.Model.g_neg (Tcp.Model.gstep e (snd (Tcp.Model.step s e)) g)) ->
+   exists o, In o (snd (Tcp.Model.step s e)) /\ Tcp.Settle.answers_neg c o).
+Proof. exact Tcp.Settle.tcp_env_removes_only_by_answer. Qed.
+Print Assumptions C05_tcp_env_removes_only_by_answer.
+
+(* never silence, per transport: the schedule uses attempts ending and polls only, never the overall deadline that QUIC lacks *)
+Theorem C05_tr_can_always_settle :
+  forall t s g,
+  Tcp.VariantTheorems.treach t s g ->
+  exists es, forallb Tcp.Settle.env_ev es = true /\
+             Tcp.VariantTheorems.treach t (fst (Tcp.Settle.runG s g es)) (snd (Tcp.Settle.runG s g es)) /\
+             Tcp.Model.g_open (snd (Tcp.Settle.runG s g es)) = [] /\ Tcp.Model.g_neg (snd (Tcp.Settle.runG s g es)) = [].
+Proof. exact Tcp.Settle.t_can_always_settle. Qed.
+Print Assumptions C05_tr_can_always_settle.
+
+
+(* non-vacuity, WebSocket: dial refuses an address without /p2p and a TCP address; of three addresses
+   of an open only the WebSocket one is an attempt, answered by the wrong identity: OpenFailure; a
+   second open answered by the named peer: ConnectionOpened, cancel + negotiate, ConnectionEstablished *)
+Example C05_ws_history :
+  Tcp.Once.tcallers_ok V.C10.Model.TWs Tcp.Model.init Tcp.Model.g0 Tcp.Once.ws_history = true /\
+  snd (Tcp.Once.trun V.C10.Model.TWs Tcp.Model.init Tcp.Once.ws_history) =
+  [[Tcp.Model.OId 0]; [Tcp.Model.ORet false]; [Tcp.Model.ORet false]; [Tcp.Model.ORet true];
+   [Tcp.Model.OEv (Tcp.Model.TOpenFailure 0)]; [Tcp.Model.OId 1]; [Tcp.Model.ORet true];
+   [Tcp.Model.OEv (Tcp.Model.TOpened 1)]; []; [Tcp.Model.ORet true];
+   [Tcp.Model.OEv (Tcp.Model.TEstablished 1 1 false)]].
+Proof. exact Tcp.Once.ws_history_ok. Qed.
+
+(* non-vacuity, QUIC: dial refuses an address without /p2p; a dial answered by the named peer; an open
+   none of whose addresses is a QUIC address with /p2p fails at the next poll *)
+Example C05_quic_history :
+  Tcp.Once.tcallers_ok V.C10.Model.TQuic Tcp.Model.init Tcp.Model.g0 Tcp.Once.quic_history = true /\
+  snd (Tcp.Once.trun V.C10.Model.TQuic Tcp.Model.init Tcp.Once.quic_history) =
+  [[Tcp.Model.OId 0]; [Tcp.Model.ORet false]; [Tcp.Model.ORet true];
+   [Tcp.Model.OEv (Tcp.Model.TEstablished 0 1 false)]; [Tcp.Model.OId 1]; [Tcp.Model.ORet true];
+   [Tcp.Model.OEv (Tcp.Model.TOpenFailure 1)]].
+Proof. exact Tcp.Once.quic_history_ok. Qed.
+
+
+(* ---- manager + ANY ONE installed socket transport (coq/C05/TrCompose.v) ----
+   The composition of coq/C05/TcpCompose.v does not depend on the installed transport being TCP: the
+   same development with the transport tag abstracted (Tg), for configurations in which Tg is the one
+   installed transport — in particular WebSocket alone. What the bookkeeping model inside the composed
+   system stands for is said by C05_sysT_calls_are_real / C05_sysT_transport_side_is_its_model: the
+   model of that transport (coq/Tcp/Variants.v) run on the real trait calls with the canonical
+   addresses. Two transports installed at once are not covered (the C05_sys_ and C05_sysT_ theorems are
+   single-transport; for TCP + WebSocket together `feas` stays an assumption about the pair, although
+   each transport model satisfies its own contract, the C05_tr_ theorems). *)
+
+(* composition with ANY ONE installed transport (tag Tg: TCP or WebSocket): the transport contract is no assumption: every history of outside inputs makes the manager see an event history that satisfies `feas`, and the manager part of the composed run is the manager model run on that history *)
+Theorem C05_sysT_feasible :
+  forall (Tg : tr) (L : limits),
+  (forall t : tr, installed L t = true <-> t = Tg) ->
+  forall xs : list TrCompose.xev,
+  TrCompose.xfeasible Tg L TrCompose.sys0 xs ->
+  feasible L init g0 (TrCompose.sys_trace Tg L TrCompose.sys0 xs) /\
+  (TrCompose.s_m (TrCompose.sys_run Tg L TrCompose.sys0 xs), TrCompose.s_g (TrCompose.sys_run Tg L TrCompose.sys0 xs)) =
+  lrun L init g0 (TrCompose.sys_trace Tg L TrCompose.sys0 xs).
+Proof. exact TrCompose.sys_feasible0. Qed.
+Print Assumptions C05_sysT_feasible.
+
+(* ... one input at a time, from any state the coupling invariant holds in *)
+Theorem C05_sysT_step :
+  forall (Tg : tr) (L : limits),
+  (forall t : tr, installed L t = true <-> t = Tg) ->
+  forall (st : TrCompose.sys) (x : TrCompose.xev),
+  TrCompose.Inv Tg L st ->
+  TrCompose.xok L st x ->
+  feasible L (TrCompose.s_m st) (TrCompose.s_g st) (TrCompose.sys_evs Tg L st x) /\ TrCompose.Inv Tg L (TrCompose.sys_step Tg L st x).
+Proof. exact TrCompose.sys_step_inv. Qed.
+Print Assumptions C05_sysT_step.
+
+(* the ledger theorems for manager + the one installed transport, without assuming anything about the transport *)
+Theorem C05_sysT_at_most_one_outcome :
+  forall (Tg : tr) (L : limits),
+  (forall t : tr, installed L t = true <-> t = Tg) ->
+  forall xs : list TrCompose.xev,
+  TrCompose.xfeasible Tg L TrCompose.sys0 xs -> NoDup (terminals L init (TrCompose.sys_trace Tg L TrCompose.sys0 xs)).
+Proof. exact TrCompose.sys_at_most_one_outcome. Qed.
+Print Assumptions C05_sysT_at_most_one_outcome.
+
+(* ... no silence *)
+Theorem C05_sysT_no_silence :
+  forall (Tg : tr) (L : limits),
+  (forall t : tr, installed L t = true <-> t = Tg) ->
+  forall xs : list TrCompose.xev,
+  TrCompose.xfeasible Tg L TrCompose.sys0 xs ->
+  let st := TrCompose.sys_run Tg L TrCompose.sys0 xs in
+  quiescent (TrCompose.s_m st) (TrCompose.s_g st) ->
+  forall (c : N) (p : peer),
+  lookup c (g_att (TrCompose.s_g st)) = Some p ->
+  In c (g_done (TrCompose.s_g st)) \/ In c (g_super (TrCompose.s_g st)) /\ In p (g_rep (TrCompose.s_g st)) \/ In c (g_limrej (TrCompose.s_g st)).
+Proof. exact TrCompose.sys_no_silence. Qed.
+Print Assumptions C05_sysT_no_silence.
+
+(* ... no wedged peer *)
+Theorem C05_sysT_no_wedge :
+  forall (Tg : tr) (L : limits),
+  (forall t : tr, installed L t = true <-> t = Tg) ->
+  forall xs : list TrCompose.xev,
+  TrCompose.xfeasible Tg L TrCompose.sys0 xs ->
+  let st := TrCompose.sys_run Tg L TrCompose.sys0 xs in
+  quiescent (TrCompose.s_m st) (TrCompose.s_g st) -> forall p : peer, settled (state_of (TrCompose.s_m st) p).
+Proof. exact TrCompose.sys_no_wedge. Qed.
+Print Assumptions C05_sysT_no_wedge.
+
+(* ... no panic site is reached *)
+Theorem C05_sysT_no_stuck :
+  forall (Tg : tr) (L : limits),
+  (forall t : tr, installed L t = true <-> t = Tg) ->
+  forall (xs : list TrCompose.xev) (x : TrCompose.xev) (s : N),
+  TrCompose.xfeasible Tg L TrCompose.sys0 (xs ++ [x]) ->
+  forall (e : ev) (m : mgr) (g : ghost) (es2 : list ev),
+  TrCompose.sys_evs Tg L (TrCompose.sys_run Tg L TrCompose.sys0 xs) x = e :: es2 ->
+  (m, g) = (TrCompose.s_m (TrCompose.sys_run Tg L TrCompose.sys0 xs), TrCompose.s_g (TrCompose.sys_run Tg L TrCompose.sys0 xs)) ->
+  ~ In (Stuck s) (snd (step L m e)).
+Proof. exact TrCompose.sys_no_stuck. Qed.
+Print Assumptions C05_sysT_no_stuck.
+
+(* quiescence, read off the transport model's own ledger *)
+Theorem C05_sysT_quiescent :
+  forall (Tg : tr) (L : limits),
+  (forall t : tr, installed L t = true <-> t = Tg) ->
+  forall xs : list TrCompose.xev,
+  TrCompose.xfeasible Tg L TrCompose.sys0 xs ->
+  let st := TrCompose.sys_run Tg L TrCompose.sys0 xs in
+  quiescent (TrCompose.s_m st) (TrCompose.s_g st) <->
+  TrCompose.TM.g_open (TrCompose.s_tg st) = [] /\ TrCompose.TM.g_neg (TrCompose.s_tg st) = [] /\ accepting (TrCompose.s_m st) = [].
+Proof. exact TrCompose.sys_quiescent0. Qed.
+Print Assumptions C05_sysT_quiescent.
+
+(* whatever the manager waits for is backed by a pending un-cancelled future of the transport model *)
+Theorem C05_sysT_owed_is_pending :
+  forall (Tg : tr) (L : limits),
+  (forall t : tr, installed L t = true <-> t = Tg) ->
+  forall (xs : list TrCompose.xev) (c : conn),
+  TrCompose.xfeasible Tg L TrCompose.sys0 xs ->
+  let st := TrCompose.sys_run Tg L TrCompose.sys0 xs in
+  owed (TrCompose.s_g st) c ->
+  (exists (f : N) (rem : list (N * TrCompose.TM.expect)),
+     TrCompose.TM.lookup f (TrCompose.TM.praw (TrCompose.s_t st)) = Some c /\
+     TrCompose.TM.lookup f (TrCompose.TM.attempts (TrCompose.s_t st)) = Some rem /\ ~ In f (TrCompose.TM.aborted (TrCompose.s_t st))) \/
+  (exists (f : N) (k : TrCompose.TM.kind),
+     TrCompose.TM.lookup f (TrCompose.TM.pconn (TrCompose.s_t st)) = Some (c, k) /\ TrCompose.TM.is_inb k = false).
+Proof. exact TrCompose.sys_owed_is_pending0. Qed.
+Print Assumptions C05_sysT_owed_is_pending.
+
+(* ... and there is an allowed network / runtime input whose handling hands the manager an answer for it *)
+Theorem C05_sysT_progress :
+  forall (Tg : tr) (L : limits),
+  (forall t : tr, installed L t = true <-> t = Tg) ->
+  forall (xs : list TrCompose.xev) (c : conn),
+  TrCompose.xfeasible Tg L TrCompose.sys0 xs ->
+  let st := TrCompose.sys_run Tg L TrCompose.sys0 xs in
+  owed (TrCompose.s_g st) c ->
+  exists n : TrCompose.TM.ev,
+    TrCompose.TM.polls n = true /\
+    TrCompose.xfeasible Tg L TrCompose.sys0 (xs ++ [TrCompose.XNet n]) /\
+    (exists e : ev, In e (TrCompose.sys_evs Tg L st (TrCompose.XNet n)) /\ TrCompose.answers c e).
+Proof. exact TrCompose.sys_progress0. Qed.
+Print Assumptions C05_sysT_progress.
+
+(* what the bookkeeping model inside the composed system stands for: the model events the composition executes are exactly the images, under the front end of the transport of that tag (coq/Tcp/Variants.v ev_of; TCP -> TcpTransport, WS -> WebSocketTransport), of the REAL trait calls with the canonical addresses of the dialled peer *)
+Theorem C05_sysT_calls_are_real :
+  forall (Tg : tr) (p : peer) (k : nat) (o : out),
+  Tg = TCP \/ Tg = WS -> TrCompose.fwd Tg p k o = map (TrCompose.TV.ev_of (TrCompose.transport_of Tg)) (TrCompose.fwdX Tg p k o).
+Proof. exact TrCompose.fwd_real. Qed.
+Print Assumptions C05_sysT_calls_are_real.
+
+(* ... so when the manager handles an event the transport side of the composed system is the model of that transport run on the real trait calls *)
+Theorem C05_sysT_transport_side_is_its_model :
+  forall (Tg : tr) (L : limits) (k : nat) (st : TrCompose.sys) (e : ev),
+  Tg = TCP \/ Tg = WS ->
+  (TrCompose.s_t (TrCompose.deliver Tg L k st e), TrCompose.s_tg (TrCompose.deliver Tg L k st e)) =
+  TrCompose.xrun (TrCompose.transport_of Tg) (TrCompose.s_t st) (TrCompose.s_tg st) (TrCompose.real_calls Tg L k st e).
+Proof. exact TrCompose.deliver_real. Qed.
+Print Assumptions C05_sysT_transport_side_is_its_model.
+
+(* non-vacuity: WebSocket alone installed: add a /ws address, dial by peer (first address answered by another identity, second by the peer: ConnectionOpened, cancel + negotiate, ConnectionEstablished, accepted), an inbound socket, a dial_address through the handle whose attempt fails; nothing owed at the end *)
+Example C05_sysws_history :
+  TrCompose.xfeasible WS TrCompose.L_ws TrCompose.sys0 TrCompose.history_ws /\
+  TrCompose.sys_trace WS TrCompose.L_ws TrCompose.sys0 TrCompose.history_ws =
+  [CmdAddAddr 5 WS; CmdDialPeer 5 [WS] []; TrOpened 0 WS false; TrEstablished 5 0 WS false false; AcceptDone 0 true; AllocConn;
+   TrPendingInbound 1 WS; TrEstablished 7 1 WS true false; AcceptDone 1 true; HDialAddr (canon 6 WS) false; TrDialFailure 2 WS 6] /\
+  snd (run TrCompose.L_ws init (TrCompose.sys_trace WS TrCompose.L_ws TrCompose.sys0 TrCompose.history_ws)) =
+  [[]; [CallOpen 0 WS; Ret RET_OK]; [CallCancel 0 WS; CallNegotiate 0 WS]; [CallAccept 0 WS]; [EvEstablished 5 0]; [
+   Ret (RET_ALLOC + 1)]; [CallAcceptPending 1 WS]; [CallAccept 1 WS]; [EvEstablished 7 1]; [Ret RET_OK; CallDial 2 WS; Logged RET_OK];
+   [ProtoDialFailure 6; EvDialFailure 2 6]] /\
+  quiescent (TrCompose.s_m (TrCompose.sys_run WS TrCompose.L_ws TrCompose.sys0 TrCompose.history_ws))
+    (TrCompose.s_g (TrCompose.sys_run WS TrCompose.L_ws TrCompose.sys0 TrCompose.history_ws)).
+Proof. exact TrCompose.history_ws_ok. Qed.
